@@ -1,0 +1,16 @@
+//go:build verif
+
+package persistedretry
+
+// Test-only seam for the C30 runtime monitor (/verif/harness/c30). Inert
+// without the `verif` build tag. Wrapper only.
+
+// VerifC30QueueLens returns the current lengths of the incoming and retry
+// queues and the total number of workers of a Manager built by NewManager.
+func VerifC30QueueLens(m Manager) (incoming, retries, workers int) {
+	mm, ok := m.(*manager)
+	if !ok {
+		return 0, 0, 0
+	}
+	return len(mm.incoming), len(mm.retries), mm.config.NumIncomingWorkers + mm.config.NumRetryWorkers
+}
